@@ -268,3 +268,8 @@ Qed.
 
 
 
+
+(* cosh-1 link: the two exponential terms of the code (C16_expected_cosh_noise, props/C16.v) add up to the closed form
+   E[cosh h - 1] = exp(v/2) cosh m - 1 for h ~ N(m, v) *)
+Lemma cosh_noise_closed_form (m v : R) : exp (m + v / 2) / 2 + exp (- m + v / 2) / 2 - 1 = exp (v / 2) * cosh m - 1.
+Proof. unfold cosh. rewrite !exp_plus. field. Qed.
